@@ -221,7 +221,12 @@ class GaussianPSF(Fittable2DModel):
         """
         a = factor * self.x_sigma
         b = factor * self.y_sigma
-        dx, dy = ellipse_extent(a, b, self.theta)
+        # ellipse_extent takes an angular Quantity or a value in radians;
+        # theta is in degrees if it is not a Quantity
+        theta = self.theta.quantity
+        if theta is None:
+            theta = np.deg2rad(self.theta.value)
+        dx, dy = ellipse_extent(a, b, theta)
         return ((self.y_0 - dy, self.y_0 + dy), (self.x_0 - dx, self.x_0 + dx))
 
     @property
@@ -881,7 +886,12 @@ class GaussianPRF(Fittable2DModel):
         """
         a = factor * self.x_sigma
         b = factor * self.y_sigma
-        dx, dy = ellipse_extent(a, b, self.theta)
+        # ellipse_extent takes an angular Quantity or a value in radians;
+        # theta is in degrees if it is not a Quantity
+        theta = self.theta.quantity
+        if theta is None:
+            theta = np.deg2rad(self.theta.value)
+        dx, dy = ellipse_extent(a, b, theta)
         return ((self.y_0 - dy, self.y_0 + dy), (self.x_0 - dx, self.x_0 + dx))
 
     @property
